@@ -4,6 +4,9 @@ use std::time::{Duration, SystemTime};
 use crate::cache::clock::ClockType;
 use crate::cache::types::{ExpireAfter, KeyId};
 
+/// Longer time_to_live values are treated as this one: `SystemTime + Duration` panics on overflow.
+const MAX_TIME_TO_LIVE: Duration = Duration::from_secs(1000 * 365 * 24 * 60 * 60);
+
 /// `StoredValue` wraps the client provided Value and it is stored as a value in the `crate::cache::store::Store`.
 ///
 /// It encapsulates the `value`, `key_id`, the optional expiry of the key.
@@ -104,7 +107,7 @@ impl<Value> StoredValue<Value> {
     }
 
     pub(crate) fn calculate_expiry(time_to_live: Duration, clock: &ClockType) -> SystemTime {
-        clock.now().add(time_to_live)
+        clock.now().add(std::cmp::min(time_to_live, MAX_TIME_TO_LIVE))
     }
 }
 
